@@ -15,20 +15,28 @@ RULE = ("histories of public mutators of Tree/Node/Edge (random, <= 30 ops, tree
 MODELLED_NOT_VERIFIED = [
     "C03: Model/C03.lean is hand-written from the anchored routines; tied to the code by the per-step comparison of the whole "
     "tree (ids, child order, taxa, exact lengths, rooting flag) after every operation of every history",
-    "C03: Model/C03Heap.lean (pointer primitives as written) is tied to Node/Edge by the `heap` comparison of parent pointers and child lists",
+    "C03: Model/C03Heap.lean (pointer primitives as written) is tied to Node/Edge by the `heap` comparison of parent pointers and "
+    "child lists; the reseed chain is compared with Tree.reseed_at itself (all clean-up switched off)",
+    "C03: `step` refuses (bad-input) operations naming nodes that are not in the tree or breaking the harness's issuing "
+    "preconditions (e.g. parent setter into the node's own subtree, resolve limit < 2); those branches make no claim about the code",
     "C03: resolve_polytomies(rng=...), reroot_at_midpoint and the pointer state of detached nodes are checked by the oracle only (no model)",
     "C03: node annotations, comments, labels and Edge objects' own attributes are carried opaquely; add_child of a node that is "
     "still attached elsewhere is outside the documented precondition and outside the history alphabet",
     "C03: clause (c) (update_bipartitions leaves a fresh encoding) is decided by the from-scratch oracle only; the Lean model carries "
     "the restructuring done by encode_bipartitions, not the masks (those are C01's)",
 ]
-EXPLANATION = ("Theorems (Props/C03.lean, all without sorry/axioms): step_wf / history_wf - every operation of the 29-constructor "
-               "alphabet and every finite history keeps the rose tree free of shared nodes (clause (a) at tree level, full strength "
-               "over the model); suppress_keeps_leaf_taxa (clause (b) for unifurcation suppression); heap layer: ofTree_repr, "
-               "removeChild_repr, removeChild_frame, removeChild_error_iff, removeChild_refines (pointer-level remove_child refines "
-               "the tree-level removal). Not proved, only modelled and compared with the code every run: heap refinement of "
-               "add_child/insert_child/remove_child(suppress)/parent setter/Edge.collapse/Edge.invert/reseed chain; clause (b) for "
-               "the other operations and clause (c) are decided by the oracle on the implementation after every step.")
+EXPLANATION = ("Theorems (Props/C03.lean, no sorry/axioms): step_wf / history_wf - every operation of the 29-constructor alphabet "
+               "and every finite history keeps the rose tree free of shared nodes (they do not say nodes are kept); "
+               "step_keeps_leaves_partial / history_keeps_leaves_partial - for 14 operations (suppress, basal collapse, root "
+               "polytomy, unweighted collapse, encode, ladderize, reorder, rotate, reseed/reroot at internal nodes, the "
+               "taxon/filter pruning family) a taxon-bearing leaf not asked to be removed stays a leaf, same node, same taxon "
+               "(_partial: the other 15 operations are decided by the oracle only); suppress_keeps_leaf_taxa; heap layer: "
+               "ofTree_repr, removeChild_repr (incl. removed node parentless), removeChild_frame, removeChild_refines; "
+               "polytomize_fixpoint, dropLeavesFix_fixpoint (fuel suffices). Not proved, only modelled and compared with the "
+               "code every run: heap refinement of add_child/insert_child/remove_child(suppress)/parent setter/Edge.collapse/"
+               "Edge.invert/reseed chain; clause (c) is decided by the oracle on the implementation after every step. The "
+               "driver runs `step` per operation AND `run` on whole histories (composed model histories are compared with the "
+               "implementation's final tree).")
 
 DOC_ERRORS = ("ValueError", "TypeError", "SeedNodeDeletionException")
 FLAG_OPS_UB = {"reseed", "rerootnode", "rerootedge", "outgroup", "suppress", "collapseunweighted", "resolve", "resolve_rng",
@@ -36,6 +44,7 @@ FLAG_OPS_UB = {"reseed", "rerootnode", "rerootedge", "outgroup", "suppress", "co
 NO_MODEL = {"resolve_rng", "midpoint"}
 HUNG = set()          # operations that ran into the time limit
 MAX_FAILURES = 60     # enough to report; the search stops there
+HANG_S = 20           # far above any legitimate run time (operations on these trees take well under a millisecond)
 
 
 # ----------------------------------------------------------------------------------------------- world
@@ -633,10 +642,12 @@ def do_step(ctx, world, op, hist, pending, single_check=True):
         world.tree.encode_bipartitions(suppress_unifurcations=False, collapse_unrooted_basal_bifurcation=False)
     snap = Snap(world)
     hist.ops.append(op)
+    hist.last_raised = None
     line = to_line(snap, op)
     raised = None
+    state_changed = False
     try:
-        with time_limit(5):
+        with time_limit(HANG_S):
             execute(world, snap, op)
     except Timeout:
         raised = "Timeout"
@@ -645,6 +656,7 @@ def do_step(ctx, world, op, hist, pending, single_check=True):
         raised = "RecursionError"
     except Exception as e:
         raised = err_class(e)
+    hist.last_raised = raised
     fails = []
     expect = op.get("expect")
     if op["op"] == "filterleaves" and filter_hits_seed(snap, op["keep"], bool(op["rec"])):
@@ -655,22 +667,24 @@ def do_step(ctx, world, op, hist, pending, single_check=True):
         fails.append(("missing-error", "%s completed although %s is documented for this argument" % (op["op"], expect)))
     probs = ["not examined after a hang"] if raised == "Timeout" else structure_problems(world.tree)
     if raised == "Timeout":
-        fails.append(("hang", "%s did not return within 5 s" % op["op"]))
+        fails.append(("hang", "%s did not return within %d s" % (op["op"], HANG_S)))
     elif probs:
         fails.append(("ill-formed", "after %s%s: %s" % (op["op"], " (raised %s)" % raised if raised else "", "; ".join(probs))))
     else:
         try:
             world.tree._debug_tree_is_valid()
         except AssertionError as e:
-            fails.append(("second-opinion", "Tree._debug_tree_is_valid fails after %s: %s" % (op["op"], str(e)[:120])))
+            # the library's own self-check is a second opinion only: recorded, never a verdict
+            ctx.count("second_opinion_differs:" + op["op"])
         except Exception:
             pass
     after_render = None
     if not probs:
         after_render = tu.render_tree(world.tree, snap.ids)
-        if raised is not None and expect is not None and raised == expect and op["op"] != "filterleaves":
-            if after_render != snap.render:
-                fails.append(("error-changed-tree", "%s raised %s but changed the tree" % (op["op"], raised)))
+        if raised is not None and op["op"] != "filterleaves" and after_render != snap.render:
+            # the statement asks for "well formed" after a raise (checked above); the model says more - the state is kept -
+            # and that goes through the correspondence, not through the verdict
+            state_changed = True
         if raised is None and not op.get("undoc"):
             for p in leaf_taxon_problems(world, snap, op):
                 fails.append(("leaf-taxa", "after %s: %s" % (op["op"], p)))
@@ -694,7 +708,7 @@ def do_step(ctx, world, op, hist, pending, single_check=True):
         ctx.fail(kind, what, rep)
     if line is not None:
         if raised is not None:
-            impl = "err " + raised
+            impl = "err " + raised + (" but-state-changed" if state_changed else "")
         elif probs:
             impl = "ill-formed"
         else:
@@ -774,103 +788,114 @@ def shape_text(root, idmap):
     return go(root, False)
 
 
+def heap_params(dendropy, rng):
+    """one pointer-primitive case: {"toks", "prim", args…} (all JSON-able), or None"""
+    n = rng.randint(1, 7)
+    shape = tu.rand_shape(rng, n, p_poly=rng.choice([0.1, 0.4]), p_unary=rng.choice([0.0, 0.2]))
+    tns = tu.make_namespace(dendropy, n)
+    tree = tu.build_tree(dendropy, shape, tns, list(tns), None, None)
+    toks, ids = tu.encode_tree(tree, with_labels=False)
+    nn = len(ids)
+    kids = [[ids.of(c) for c in ids.node(i)._child_nodes] for i in range(nn)]
+    par = [None if ids.node(i)._parent_node is None else ids.of(ids.node(i)._parent_node) for i in range(nn)]
+    prim = rng.choice(["add", "insert", "insertold", "remove", "remove", "setparent", "collapse", "invert", "reseed"])
+    hp = {"toks": toks, "prim": prim}
+    if prim == "add":
+        hp.update(p=rng.randrange(nn))
+    elif prim == "insert":
+        p = rng.randrange(nn)
+        hp.update(p=p, idx=rng.randint(0, len(kids[p])))
+    elif prim == "insertold":
+        cands = [i for i in range(nn) if kids[i]]
+        if not cands:
+            return None
+        p = rng.choice(cands)
+        hp.update(p=p, c=rng.choice(kids[p]), idx=rng.randrange(len(kids[p])))
+    elif prim == "remove":
+        if nn < 2:
+            return None
+        c = rng.randrange(1, nn)
+        hp.update(c=c, s=rng.randint(0, 1), p=par[c] if rng.random() < 0.9 else rng.randrange(nn))
+    elif prim == "setparent":
+        if nn < 2:
+            return None
+        c = rng.randrange(1, nn)
+        sub, st = set(), [c]
+        while st:
+            x = st.pop()
+            sub.add(x)
+            st.extend(kids[x])
+        hp.update(c=c, q=rng.choice([q for q in range(nn) if q not in sub]))
+    else:
+        hp.update(c=rng.randrange(nn))
+    return hp
+
+
+def heap_run(dendropy, hp):
+    """execute one pointer primitive on real objects; returns (protocol line, canonical result)"""
+    toks = hp["toks"]
+    tree, ids = tu.tree_from_tokens(dendropy, toks)
+    nn = len(ids)
+    idmap = dict(ids.map)
+    N = ids.node
+    top_from = tree.seed_node
+    prim = hp["prim"]
+    t = " ".join(toks)
+    err = False
+    try:
+        if prim == "add":
+            new = dendropy.Node()
+            idmap[id(new)] = nn
+            line = "heap add %d %d %s" % (hp["p"], nn, t)
+            N(hp["p"]).add_child(new)
+        elif prim == "insert":
+            new = dendropy.Node()
+            idmap[id(new)] = nn
+            line = "heap insert %d %d %d %s" % (hp["p"], hp["idx"], nn, t)
+            N(hp["p"]).insert_child(hp["idx"], new)
+        elif prim == "insertold":
+            line = "heap insert %d %d %d %s" % (hp["p"], hp["idx"], hp["c"], t)
+            N(hp["p"]).insert_child(hp["idx"], N(hp["c"]))
+        elif prim == "remove":
+            line = "heap remove %d %d %d %s" % (hp["p"], hp["c"], hp["s"], t)
+            N(hp["p"]).remove_child(N(hp["c"]), suppress_unifurcations=bool(hp["s"]))
+        elif prim == "setparent":
+            line = "heap setparent %d %d %s" % (hp["c"], hp["q"], t)
+            N(hp["c"]).parent_node = N(hp["q"])
+        elif prim == "collapse":
+            line = "heap collapse %d %s" % (hp["c"], t)
+            N(hp["c"]).edge.collapse()
+        elif prim == "invert":
+            line = "heap invert %d %s" % (hp["c"], t)
+            top_from = N(hp["c"])
+            N(hp["c"]).edge.invert()
+        else:
+            # the inversion chain, run by Tree.reseed_at itself with every clean-up switched off
+            line = "heap reseed %d %s" % (hp["c"], t)
+            top_from = N(hp["c"])
+            tree.reseed_at(N(hp["c"]), update_bipartitions=False, collapse_unrooted_basal_bifurcation=False,
+                           suppress_unifurcations=False)
+    except ValueError:
+        err = True
+    except Exception as e:      # not a documented outcome of a pointer primitive: shows as a disagreement
+        err = "exc " + err_class(e)
+    if err:
+        return line, ("err" if err is True else err)
+    x, k = top_from, 0
+    while x._parent_node is not None and k < nn + 3:
+        x = x._parent_node
+        k += 1
+    return line, "ok " + shape_text(x, idmap)
+
+
 def heap_cases(ctx, dendropy, rng, pending_heap, count):
     for _ in range(count):
-        n = rng.randint(1, 7)
-        shape = tu.rand_shape(rng, n, p_poly=rng.choice([0.1, 0.4]), p_unary=rng.choice([0.0, 0.2]))
-        tns = tu.make_namespace(dendropy, n)
-        tree = tu.build_tree(dendropy, shape, tns, list(tns), None, None)
-        toks, ids = tu.encode_tree(tree, with_labels=False)
-        nn = len(ids)
-        kids = [[ids.of(c) for c in ids.node(i)._child_nodes] for i in range(nn)]
-        par = [None if ids.node(i)._parent_node is None else ids.of(ids.node(i)._parent_node) for i in range(nn)]
-        idmap = dict(ids.map)
-        prim = rng.choice(["add", "insert", "insertold", "remove", "remove", "setparent", "collapse", "invert", "reseed"])
-        N = ids.node
-        root = tree.seed_node
-        top_from = root
-        err = False
-        try:
-            if prim == "add":
-                p = rng.randrange(nn)
-                new = dendropy.Node()
-                idmap[id(new)] = nn
-                N(p).add_child(new)
-                line = "heap add %d %d %s" % (p, nn, " ".join(toks))
-            elif prim == "insert":
-                p = rng.randrange(nn)
-                idx = rng.randint(0, len(kids[p]))
-                new = dendropy.Node()
-                idmap[id(new)] = nn
-                N(p).insert_child(idx, new)
-                line = "heap insert %d %d %d %s" % (p, idx, nn, " ".join(toks))
-            elif prim == "insertold":
-                cands = [i for i in range(nn) if kids[i]]
-                if not cands:
-                    continue
-                p = rng.choice(cands)
-                c = rng.choice(kids[p])
-                idx = rng.randrange(len(kids[p]))
-                N(p).insert_child(idx, N(c))
-                line = "heap insert %d %d %d %s" % (p, idx, c, " ".join(toks))
-            elif prim == "remove":
-                if nn < 2:
-                    continue
-                c = rng.randrange(1, nn)
-                s = rng.randint(0, 1)
-                p = par[c] if rng.random() < 0.9 else rng.randrange(nn)
-                line = "heap remove %d %d %d %s" % (p, c, s, " ".join(toks))
-                N(p).remove_child(N(c), suppress_unifurcations=bool(s))
-            elif prim == "setparent":
-                if nn < 2:
-                    continue
-                c = rng.randrange(1, nn)
-                sub, st = set(), [c]
-                while st:
-                    x = st.pop()
-                    sub.add(x)
-                    st.extend(kids[x])
-                qs = [q for q in range(nn) if q not in sub]
-                q = rng.choice(qs)
-                N(c).parent_node = N(q)
-                line = "heap setparent %d %d %s" % (c, q, " ".join(toks))
-            elif prim == "collapse":
-                c = rng.randrange(nn)
-                line = "heap collapse %d %s" % (c, " ".join(toks))
-                N(c).edge.collapse()
-            elif prim == "invert":
-                c = rng.randrange(nn)
-                line = "heap invert %d %s" % (c, " ".join(toks))
-                top_from = N(c)
-                N(c).edge.invert()
-            else:
-                c = rng.randrange(nn)
-                line = "heap reseed %d %s" % (c, " ".join(toks))
-                # the inversion chain of reseed_at, as written there
-                edges, cur = [], N(c)
-                while cur:
-                    if cur._parent_node is not None:
-                        edges.append(cur.edge)
-                    cur = cur._parent_node
-                while edges:
-                    edges.pop().invert()
-                N(c)._parent_node = None
-                top_from = N(c)
-        except ValueError:
-            err = True
-        except Exception as e:      # not a documented outcome of a pointer primitive: shows as a disagreement
-            err = "exc " + err_class(e)
-        if err:
-            impl = "err" if err is True else err
-        else:
-            t = top_from
-            k = 0
-            while t._parent_node is not None and k < nn + 3:
-                t = t._parent_node
-                k += 1
-            impl = "ok " + shape_text(t, idmap)
-        ctx.count("heap:" + prim)
-        pending_heap.append((line, {"heap": line}, impl))
+        hp = heap_params(dendropy, rng)
+        if hp is None:
+            continue
+        line, impl = heap_run(dendropy, hp)
+        ctx.count("heap:" + hp["prim"])
+        pending_heap.append((line, {"heap": hp, "op": "heap " + hp["prim"]}, impl))
 
 
 # ----------------------------------------------------------------------------------------------- generation
@@ -917,11 +942,45 @@ CATS = ["remove", "newchild", "insertnew", "addsub", "insertsub", "insertmove", 
         "errors"]
 
 
+NOCOMPOSE = {"newchild", "insertnew", "addsub", "insertsub", "rerootedge", "resolve", "resolve_rng", "midpoint"}
+
+
+NODE_FIELDS = {"remove": ("p", "c"), "insertmove": ("p", "c"), "setparent": ("c", "q"), "edgecollapse": ("c",),
+               "collapseclade": ("c",), "reseed": ("n",), "rerootnode": ("n",), "outgroup": ("n",), "prunesubtree": ("c",),
+               "reorient": ("k",)}
+
+
+class _NoTree(object):
+    toks, rooted, limbo_toks = [], "X", []
+
+
+def translate(op, snap, orig):
+    """the operation with its node references renamed from the current snapshot to the ids of the START tree
+    (None when it names a node that did not exist then)"""
+    o = dict(op)
+    for f in NODE_FIELDS.get(op["op"], ()):
+        if f in o:
+            v = orig.get(id(snap.ids.node(o[f])))
+            if v is None:
+                return None
+            o[f] = v
+    if "keep" in o:
+        o["keep"] = sorted(orig[id(snap.ids.node(i))] for i in o["keep"] if id(snap.ids.node(i)) in orig)
+    return o
+
+
 def random_history(ctx, dendropy, rng, pending, max_leaves, max_ops):
     start = start_tree(dendropy, rng, max_leaves)
     world = World(dendropy, start["tree"], start["rooted"], None, start["nbits"])
     hist = History(start["tree"], start["rooted"], None, world.nbits)
     nops = rng.randint(1, max_ops)
+    # the same history is also run as ONE model history (`C03.run`) for as long as no operation creates nodes:
+    # ids of the start tree then stay valid on both sides
+    snap0 = Snap(world)
+    orig = {id(nd): i for i, nd in enumerate(snap0.ids.keep[:snap0.n])}
+    orig_ids = tu.Ids()
+    orig_ids.map = orig
+    segs, composed_impl, composing = [], None, True
     for _ in range(nops):
         if ctx.out_of_time():
             break
@@ -936,8 +995,25 @@ def random_history(ctx, dendropy, rng, pending, max_leaves, max_ops):
         ops = [o for o in ops if o["op"] not in HUNG]
         if not ops:
             break
-        if not do_step(ctx, world, rng.choice(ops), hist, pending):
+        op = rng.choice(ops)
+        tr = translate(op, snap, orig) if composing and op["op"] not in NOCOMPOSE else None
+        ok = do_step(ctx, world, op, hist, pending)
+        if composing and ok and tr is not None and not (op["op"] == "filterleaves" and hist.last_raised):
+            segs.append(to_line(_NoTree, tr)[len("step X "):].strip())
+            composed_impl = "ok %s %s" % (world.rooted(), tu.render_tree(world.tree, orig_ids))
+            nsegs_rep = hist.replay_dict()
+        else:
+            composing = False
+        if not ok:
             break
+    if len(segs) >= 2:
+        line = "run %s %s | %s" % (snap0.rooted, " ".join(snap0.toks), " | ".join(segs))
+        nsegs_rep["ops"] = nsegs_rep["ops"][:len(segs)]
+        nsegs_rep["op"] = "run"
+        nsegs_rep["composed"] = True
+        ctx.count("composed_histories")
+        ctx.count("composed_steps", len(segs))
+        pending.append((line, nsegs_rep, composed_impl))
 
 
 def exhaustive(ctx, dendropy, rng, pending):
@@ -1122,6 +1198,9 @@ def replay(ctx, rec):
     c = rec["replay"]
     pending = []
     if "heap" in c:
+        line, impl = heap_run(dendropy, c["heap"])
+        pending.append((line, c, impl))
+        flush(ctx, pending)
         return
     if "construct" in c:
         construction_ok(ctx, dendropy, [c["construct"]])
